@@ -10,7 +10,8 @@ From Coq Require Import List NArith Bool Permutation.
 From FIM Require Import Model.Cbm14Spec Proofs.Cbm14Assoc Proofs.Cbm14Merge Proofs.Cbm14Unmerge Proofs.Cbm14Inv
      Proofs.Cbm14Hist Proofs.Cbm14Dec.
 From FIM Require Model.Cbm14Store Model.Cbm14Check Model.Cbm14Abs Proofs.Cbm14Frame Proofs.Cbm14RefBase Proofs.Cbm14RefMerge
-     Proofs.Cbm14RefUnmerge Proofs.Cbm14RefSnap Proofs.Cbm14RefHist Proofs.Cbm14RefOrder.
+     Proofs.Cbm14RefUnmerge Proofs.Cbm14RefSnap Proofs.Cbm14RefHist Proofs.Cbm14RefOrder
+     Proofs.Cbm14RefEdge Proofs.Cbm14RefEdgeMerge Proofs.Cbm14RefEdgeOps Proofs.Cbm14RefFull.
 Import ListNotations.
 Open Scope N_scope.
 
@@ -159,7 +160,9 @@ Print Assumptions C14_store_invariant_decidable.
    delegation properties; abs_adm_nodes for a source model.  Invariant: J (internal ids unique and below
    start_id, (GraphID, NodeID) unique) and cbm_ok (nodes of the combined graph well-formed, contributors
    recorded once, at least one) - decidable for the initial store (rgoodb, evaluated on every correspondence case).
-   FULL statements (not proved: the CONNECTIONS are missing):
+   (The FULL statements with the connections are C14_merge_refines, C14_unmerge_refines, C14_snapshot_refines,
+   C14_rollback_refines and C14_store_simulates below; the node-only versions are kept because they need fewer
+   hypotheses.)  Full statements:
      merge_adm cbm adm tmp st = OOk st' -> exists C', smerge (abs_cbm cbm st) (abs_adm adm st) = Some C' /\ eqv (abs_cbm cbm st') C'
    and likewise unmerge_adm / sunmerge, snapshot, rollback.  What IS proved is the same with abs_nodes / nodes
    in place of abs_cbm (hence `_nodes_partial`); refusal is explicit: the store model returning normally implies
@@ -177,6 +180,26 @@ Theorem C14_merge_refines_nodes_partial : forall cbm adm tmp st st',
   (forall k, Cbm14RefBase.at_ tmp k (Cbm14Store.s_nodes st') = None).
 Proof. exact Cbm14RefMerge.merge_refines_nodes. Qed.
 Print Assumptions C14_merge_refines_nodes_partial.
+
+(* ---- FULL refinement for merge_adm (nodes AND connections): whenever the store model returns normally the abstract
+   merge is accepted and the abstraction of the resulting combined graph is the abstract result - same lookup for
+   every NodeID and for every connection key, hence eqv.  Extra hypotheses: connection ids below start_id (ebelow,
+   part of goodb) and no self-loop in the merged source.  "An existing connection wins" (contracted_nodes keeps the
+   combined graph's connection and drops the image's) is the invariant EI of Proofs/Cbm14RefEdgeLoop.v. ---- *)
+Theorem C14_merge_refines : forall cbm adm tmp st st',
+  Cbm14RefBase.J (Cbm14Store.s_next st) (Cbm14Store.s_nodes st) ->
+  Cbm14Frame.ebelow (Cbm14Store.s_next st) (Cbm14Store.s_edges st) ->
+  Cbm14RefBase.cbm_wf cbm (Cbm14Store.s_nodes st) ->
+  cbm <> tmp -> adm <> cbm -> Cbm14Store.gexists tmp st = false ->
+  (forall n, In n (Cbm14Store.of_gid adm st) ->
+             Cbm14RefEdge.edat (Cbm14Store.s_edges st) (Cbm14Store.n_int n) (Cbm14Store.n_int n) = None) ->
+  Cbm14Store.merge_adm cbm adm tmp st = Cbm14Store.OOk st' ->
+  exists C', smerge (Cbm14Abs.abs_cbm cbm st) (Cbm14Abs.abs_adm adm st) = Some C' /\
+             (forall k, getn k (nodes (Cbm14Abs.abs_cbm cbm st')) = getn k (nodes C')) /\
+             (forall e, gete e (edges (Cbm14Abs.abs_cbm cbm st')) = gete e (edges C')) /\
+             eqv (Cbm14Abs.abs_cbm cbm st') C'.
+Proof. exact Cbm14RefEdgeMerge.merge_refines. Qed.
+Print Assumptions C14_merge_refines.
 
 Theorem C14_unmerge_refines_nodes_partial : forall cbm g st,
   Cbm14RefBase.J (Cbm14Store.s_next st) (Cbm14Store.s_nodes st) -> Cbm14RefUnmerge.cbm_ok cbm (Cbm14Store.s_nodes st) ->
@@ -299,6 +322,91 @@ Theorem C14_store_order_independent_nodes_partial : forall cbm st hs l1 l2 st1 h
 Proof. exact Cbm14RefOrder.store_order_independent_nodes. Qed.
 Print Assumptions C14_store_order_independent_nodes_partial.
 
+(* ---- FULL refinement for the other operations and for whole histories (nodes AND connections) ---- *)
+Theorem C14_unmerge_refines : forall cbm g st,
+  Cbm14RefBase.J (Cbm14Store.s_next st) (Cbm14Store.s_nodes st) ->
+  Cbm14Frame.ebelow (Cbm14Store.s_next st) (Cbm14Store.s_edges st) ->
+  Cbm14RefUnmerge.cbm_ok cbm (Cbm14Store.s_nodes st) -> Cbm14Store.gexists cbm st = true ->
+  exists st', Cbm14Store.unmerge_adm cbm g st = Cbm14Store.OOk st' /\
+              eqv (Cbm14Abs.abs_cbm cbm st') (sunmerge (Cbm14Abs.abs_cbm cbm st) g).
+Proof. exact Cbm14RefFull.unmerge_refines. Qed.
+Print Assumptions C14_unmerge_refines.
+
+Theorem C14_snapshot_refines : forall cbm new st,
+  Cbm14RefBase.J (Cbm14Store.s_next st) (Cbm14Store.s_nodes st) ->
+  Cbm14Frame.ebelow (Cbm14Store.s_next st) (Cbm14Store.s_edges st) ->
+  Cbm14Store.gexists cbm st = true -> Cbm14Store.gexists new st = false ->
+  exists st', Cbm14Store.snapshot cbm new st = Cbm14Store.OOk st' /\
+              eqv (Cbm14Abs.abs_cbm new st') (Cbm14Abs.abs_cbm cbm st) /\
+              eqv (Cbm14Abs.abs_cbm cbm st') (Cbm14Abs.abs_cbm cbm st).
+Proof. exact Cbm14RefFull.snapshot_refines. Qed.
+Print Assumptions C14_snapshot_refines.
+
+Theorem C14_rollback_refines : forall cbm sid st,
+  Cbm14RefBase.J (Cbm14Store.s_next st) (Cbm14Store.s_nodes st) ->
+  Cbm14Frame.ebelow (Cbm14Store.s_next st) (Cbm14Store.s_edges st) ->
+  sid <> cbm -> Cbm14Store.gexists sid st = true ->
+  exists st', Cbm14Store.rollback cbm sid st = Cbm14Store.OOk st' /\
+              eqv (Cbm14Abs.abs_cbm cbm st') (Cbm14Abs.abs_cbm sid st).
+Proof. exact Cbm14RefFull.rollback_refines. Qed.
+Print Assumptions C14_rollback_refines.
+
+(* simulation of whole histories by the abstract model WITH connections (a merged source enters as abs_adm adm st);
+   documented domain fpre_run = pre_run + every merged source is mergeable (decidable mergeableb: well-formed
+   abstraction, no self-loop; evaluated for every source of every correspondence case) *)
+Theorem C14_store_simulates : forall cbm ops st hs st' hs',
+  Cbm14RefFull.FSim cbm st hs -> Cbm14RefFull.fpre_run cbm st hs ops ->
+  Cbm14RefFull.fsim_run cbm st hs ops = Some (st', hs') ->
+  Cbm14RefFull.FSim cbm st' hs' /\ hs' = hrun hs (Cbm14RefFull.fhops_run cbm st ops).
+Proof. exact Cbm14RefFull.fsim_run_ok. Qed.
+Print Assumptions C14_store_simulates.
+
+Theorem C14_store_simulation_starts_full : forall cbm st,
+  Cbm14RefBase.J (Cbm14Store.s_next st) (Cbm14Store.s_nodes st) ->
+  Cbm14Frame.ebelow (Cbm14Store.s_next st) (Cbm14Store.s_edges st) ->
+  Cbm14Store.gexists cbm st = false -> Cbm14RefFull.FSim cbm st hinit.
+Proof. exact Cbm14RefFull.fsim_init. Qed.
+Print Assumptions C14_store_simulation_starts_full.
+
+(* in every reachable state the abstraction of the combined graph is (equivalent to) the abstract combined model *)
+Theorem C14_store_is_abstract : forall cbm st hs,
+  Cbm14RefFull.FSim cbm st hs -> eqv (Cbm14Abs.abs_cbm cbm st) (h_cur hs).
+Proof. exact Cbm14RefFull.fsim_eqv. Qed.
+Print Assumptions C14_store_is_abstract.
+
+(* unmerge is the inverse of merge ON THE STORE MODEL: merge_adm followed by unmerge_adm of the same model restores
+   the combined graph, nodes and connections - provided the merged model brings no connection between two elements
+   already there (no_new_inner_edges, on the abstractions).  That hypothesis is exactly known finding F2. *)
+Theorem C14_store_unmerge_inverse_partial : forall cbm adm tmp st hs st1 st2,
+  Cbm14RefFull.FSim cbm st hs -> Cbm14RefFull.fpre cbm (Cbm14Check.OpMerge adm tmp) st hs ->
+  no_new_inner_edges (Cbm14Abs.abs_cbm cbm st) (Cbm14Abs.abs_adm adm st) ->
+  Cbm14Store.merge_adm cbm adm tmp st = Cbm14Store.OOk st1 -> Cbm14Store.unmerge_adm cbm adm st1 = Cbm14Store.OOk st2 ->
+  eqv (Cbm14Abs.abs_cbm cbm st2) (Cbm14Abs.abs_cbm cbm st).
+Proof. exact Cbm14RefFull.store_unmerge_inverse. Qed.
+Print Assumptions C14_store_unmerge_inverse_partial.
+
+Theorem C14_store_rollback : forall cbm id mid st hs st' hs',
+  Cbm14RefFull.FSim cbm st hs ->
+  Cbm14RefFull.fpre_run cbm st hs (Cbm14Check.OpSnap id :: mid ++ [Cbm14Check.OpRollback id]) ->
+  Cbm14RefFull.fsim_run cbm st hs (Cbm14Check.OpSnap id :: mid ++ [Cbm14Check.OpRollback id]) = Some (st', hs') ->
+  forallb (fun o => negb (Cbm14RefHist.otouches id o)) mid = true ->
+  eqv (Cbm14Abs.abs_cbm cbm st') (Cbm14Abs.abs_cbm cbm st).
+Proof. exact Cbm14RefFull.store_rollback. Qed.
+Print Assumptions C14_store_rollback.
+
+Theorem C14_store_order_independent : forall cbm st hs l1 l2 st1 hs1 st2 hs2,
+  Cbm14RefFull.FSim cbm st hs ->
+  Permutation (map fst l1) (map fst l2) -> ~ In cbm (map fst l1) ->
+  (forall a, In a (map fst l1) -> Cbm14Store.gexists a st = true /\ Cbm14Frame.Good a st) ->
+  pairwise_compatible (Cbm14RefFull.fadms_of st l1) ->
+  Cbm14RefFull.fpre_run cbm st hs (Cbm14RefOrder.mops l1) ->
+  Cbm14RefFull.fsim_run cbm st hs (Cbm14RefOrder.mops l1) = Some (st1, hs1) ->
+  Cbm14RefFull.fpre_run cbm st hs (Cbm14RefOrder.mops l2) ->
+  Cbm14RefFull.fsim_run cbm st hs (Cbm14RefOrder.mops l2) = Some (st2, hs2) ->
+  eqv (Cbm14Abs.abs_cbm cbm st1) (Cbm14Abs.abs_cbm cbm st2).
+Proof. exact Cbm14RefFull.store_order_independent. Qed.
+Print Assumptions C14_store_order_independent.
+
 (* ---- non-vacuity ---- *)
 Example C14_ex_consistent_family : consistent [A1; A2; A3] /\ Forall wf_adm [A1; A2; A3].
 Proof. exact fam_A_consistent. Qed.
@@ -362,3 +470,11 @@ Example C14_ex_store_order :
                           map Cbm14Store.n_si (Cbm14Store.of_gid 0 st2) =
                             [Cbm14Store.SIds [2; 1]; Cbm14Store.SIds [2; 1]; Cbm14Store.SIds [2]].
 Proof. exact Cbm14RefOrder.ex_order_store. Qed.
+Example C14_ex_full_refinement :
+  Cbm14Abs.rgoodb 0 Cbm14Frame.ex_store = true /\ Cbm14Store.goodb 1 Cbm14Frame.ex_store = true /\
+  Cbm14Store.gexists 0 Cbm14Frame.ex_store = false /\
+  Cbm14RefFull.fpre_run 0 Cbm14Frame.ex_store hinit Cbm14Frame.ex_sops /\
+  exists st' hs', Cbm14RefFull.fsim_run 0 Cbm14Frame.ex_store hinit Cbm14Frame.ex_sops = Some (st', hs') /\
+                  map adm_id (h_ms hs') = [1] /\ map fst (edges (h_cur hs')) = [(10, 11)] /\
+                  map fst (Cbm14Abs.abs_edges 0 st') = [(10, 11)].
+Proof. exact Cbm14RefFull.ex_full. Qed.
